@@ -579,9 +579,12 @@ Section Loop.
     induction fuel as [|k IH]; intros c s h r s' c' HI Hfuel Hl.
     { destruct HI as (_ & _ & _ & Hh & _). lia. }
     cbn [append_loop] in Hl.
-    destruct (process_batch fl c s b f (Ht h) (ix_of_height (Ht h) (b_start b)) (Ix (len - 1)) B ABoth)
+    destruct (is_canc fl (c_poll (tick c))).
+    { (* the context is cancelled: nothing is written in this iteration *)
+      inversion Hl; subst r s' c'. split; [now apply (Inv_Post s h) | discriminate]. }
+    destruct (process_batch fl (tick c) s b f (Ht h) (ix_of_height (Ht h) (b_start b)) (Ix (len - 1)) B ABoth)
       as [[res s1] c1] eqn:Ep.
-    apply (step_ok fl c s h res s1 c1 eq_refl HI) in Ep.
+    apply (step_ok fl (tick c) s h res s1 c1 eq_refl HI) in Ep.
     destruct Ep as [(Hgt & -> & ->)|[(Hle & -> & HP)|(Hle & h' & -> & Hlt & HI')]].
     - inversion Hl; subst r s' c'. split; [now apply (Inv_Post s h)|]. intros _.
       assert (h = en + 1) by (destruct HI as (_ & _ & _ & Hh & _); lia). now subst h.
@@ -639,10 +642,12 @@ Definition contents_post (fl : faults) (s s' : stores) (st : Z) (hdrs : list hdr
   (length (bfile s) <= length (bfile s'))%nat /\ (length (ffile s) <= length (ffile s'))%nat /\
   (fl_rb fl = false -> length (bfile s') = length (ffile s')).
 
-Lemma import_equal_heights P s b f bs fl r s' :
+Lemma import_equal_heights s b f bs fl c0 r s' :
   stores_wf s -> length (bfile s) = length (ffile s) -> 0 <= hz (b_start b) ->
   NoDup (map hid (extend (bfile s) (hz (b_start b)) (bs_hdrs b))) ->
-  import P s b f bs fl = (r, s') ->
+  (0 < length (bs_hdrs b))%nat -> length (fs_hdrs f) = length (bs_hdrs b) ->
+  hz (m_start (fs_meta f)) = hz (b_start b) -> continuity s b f = true ->
+  process_regions s b f bs fl c0 = (r, s') ->
   stores_wf s' /\ (length (ffile s') <= length (bfile s'))%nat /\
   contents_post fl s s' (hz (b_start b)) (bs_hdrs b) (fs_hdrs f) /\
   (r = Success ->
@@ -650,36 +655,13 @@ Lemma import_equal_heights P s b f bs fl r s' :
      ffile s' = extend (ffile s) (hz (b_start b)) (fs_hdrs f) /\
      hz (b_end b) < Z.of_nat (length (bfile s')) /\ length (bfile s') = length (ffile s')).
 Proof.
-  intros Hwf Heq Hst Hnd Him.
+  intros Hwf Heq Hst Hnd Hne Hlen Hfst Ek Him.
   pose proof (wf_tips s Hwf) as [Hbt [y Hft]].
   assert (Hsame : stores_wf s /\ (length (ffile s) <= length (bfile s))%nat /\
                   contents_post fl s s (hz (b_start b)) (bs_hdrs b) (fs_hdrs f)).
   { split; [assumption|]. split; [lia|]. unfold contents_post.
     split; [apply extend_prefix|]. split; [apply extend_prefix|]. repeat split; auto. }
-  assert (Hfail : stores_wf s /\ (length (ffile s) <= length (bfile s))%nat /\
-                  contents_post fl s s (hz (b_start b)) (bs_hdrs b) (fs_hdrs f) /\
-                  (Failure = Success ->
-                   bfile s = extend (bfile s) (hz (b_start b)) (bs_hdrs b) /\
-                   ffile s = extend (ffile s) (hz (b_start b)) (fs_hdrs f) /\
-                   hz (b_end b) < Z.of_nat (length (bfile s)) /\ length (bfile s) = length (ffile s))).
-  { destruct Hsame as (A & B0 & C). split; [assumption|]. split; [assumption|]. split; [assumption|]. discriminate. }
-  unfold import in Him.
-  destruct (open_ok (bs_meta b) (length (bs_hdrs b)) && open_ok (fs_meta f) (length (fs_hdrs f))) eqn:Eo;
-    cbn [negb] in Him; [|inversion Him; subst r s'; exact Hfail].
-  destruct (compat P b f) eqn:Ec;
-    cbn [negb] in Him; [|inversion Him; subst r s'; exact Hfail].
-  destruct (continuity s b f) eqn:Ek;
-    cbn [negb] in Him; [|inversion Him; subst r s'; exact Hfail].
-  destruct (validate_blocks P s b (eff_batch bs));
-    cbn [negb] in Him; [|inversion Him; subst r s'; exact Hfail].
-  destruct (validate_filters P f);
-    cbn [negb] in Him; [|inversion Him; subst r s'; exact Hfail].
-  (* facts from the checks *)
-  unfold open_ok in Eo. unfold compat in Ec.
-  assert (Hne : (0 < length (bs_hdrs b))%nat) by (destruct (length (bs_hdrs b)); cbn in Eo; lia).
-  assert (Hlen : length (fs_hdrs f) = length (bs_hdrs b)).
-  { apply Nat.eqb_eq. lia. }
-  assert (Hfst : hz (m_start (fs_meta f)) = hz (b_start b)) by (unfold b_start; lia).
+  unfold process_regions in Him.
   set (n := Z.of_nat (length (bfile s))) in *.
   assert (Hnf : Z.of_nat (length (ffile s)) = n) by (unfold n; lia).
   assert (Hn1 : 1 <= n) by (destruct Hwf as [W1 _ _ _ _ _ _]; unfold n; destruct (bfile s); [congruence | cbn [length]; lia]).
@@ -698,7 +680,7 @@ Proof.
   - (* new headers region exists *)
     unfold append_region in Him. unfold ix_of_height in Him. cbn [hz] in Him. fold st in Him.
     replace (st + len - 1 - st) with (len - 1) in Him by lia.
-    destruct (append_loop (S (length (bs_hdrs b))) fl (mkC 0 0) s b f (Ht n) (Ix (len - 1)) (eff_batch bs) ABoth)
+    destruct (append_loop (S (length (bs_hdrs b))) fl c0 s b f (Ht n) (Ix (len - 1)) (eff_batch bs) ABoth)
       as [[r2 s2] c2] eqn:El.
     inversion Him; subst r2 s2.
     assert (HB : 1 <= eff_batch bs) by (unfold eff_batch; destruct (bs <=? 0) eqn:E; lia).
@@ -712,7 +694,7 @@ Proof.
     assert (Hfuel : Z.of_nat (S (length (bs_hdrs b))) > st + len - 1 + 1 - n) by (unfold len; lia).
     destruct (loop_ok b f fl (eff_batch bs) (bfile s) (ffile s) st len (st + len - 1) n
                 eq_refl eq_refl eq_refl eq_refl HB Hlen Hfst Hstn (eq_sym Heq) Hnd
-                (S (length (bs_hdrs b))) (mkC 0 0) s n r s' c2 HI0 Hfuel El) as [HP HS].
+                (S (length (bs_hdrs b))) c0 s n r s' c2 HI0 Hfuel El) as [HP HS].
     destruct HP as (Q1 & Q2 & Q3 & Q4 & Q5 & Q6 & Q7).
     split; [assumption|]. split; [assumption|]. split.
     { unfold contents_post. rewrite Hext_b, Hext_f. repeat split; assumption. }
@@ -975,18 +957,153 @@ Definition checks (P : params) (s : stores) (b : bsource) (f : fsource) (bs : Z)
   open_ok (bs_meta b) (length (bs_hdrs b)) && open_ok (fs_meta f) (length (fs_hdrs f)) &&
   compat P b f && continuity s b f && validate_blocks P s b (eff_batch bs) && validate_filters P f.
 
-(* Import writes only after every check has passed *)
-Lemma import_checks P s b f bs fl r s' :
-  import P s b f bs fl = (r, s') -> (r = Failure /\ s' = s) \/ checks P s b f bs = true.
+(* ------------------------------------------------------------------ *)
+(* The context: polls, and the validators under cancellation *)
+
+Lemma is_canc_mono fl n m : is_canc fl n = true -> n <= m -> is_canc fl m = true.
+Proof. unfold is_canc. intros Hc Hle. apply andb_true_iff in Hc. apply andb_true_iff. lia. Qed.
+
+Lemma is_canc_mono_false fl n m : is_canc fl m = false -> n <= m -> is_canc fl n = false.
 Proof.
-  unfold import, checks.
+  intros Hc Hle. destruct (is_canc fl n) eqn:E; [|reflexivity].
+  rewrite (is_canc_mono fl n m E Hle) in Hc. discriminate.
+Qed.
+
+Lemma is_canc_never fl n : fl_cancel fl = 0 -> is_canc fl n = false.
+Proof. unfold is_canc. intros ->. reflexivity. Qed.
+
+(* The block validator under a context: the counters only advance; if no poll
+   it made reported cancellation it computed [validate_chunks]; a cancellation
+   can only turn a rejection into "nil" (validation cut short), never the
+   other way round. *)
+Lemma validate_chunks_c_spec P look n fl : forall fuel last l c v c',
+  validate_chunks_c fuel P look n last l fl c = (v, c') ->
+  c_bw c' = c_bw c /\ c_fw c' = c_fw c /\ c_poll c <= c_poll c' /\
+  (is_canc fl (c_poll c') = false -> v = validate_chunks fuel P look n last l) /\
+  (validate_chunks fuel P look n last l = true -> v = true).
+Proof.
+  induction fuel as [|k IH]; intros last l c v c' Hv.
+  { cbn in Hv. inversion Hv; subst. cbn [validate_chunks].
+    split; [reflexivity|]. split; [reflexivity|]. split; [lia|]. split; reflexivity. }
+  cbn [validate_chunks_c validate_chunks] in *.
+  destruct l as [|x r].
+  { inversion Hv; subst.
+    split; [reflexivity|]. split; [reflexivity|]. split; [lia|]. split; reflexivity. }
+  destruct (is_canc fl (c_poll (tick c))) eqn:Ec.
+  { inversion Hv; subst v c'. cbn [tick c_bw c_fw c_poll] in *.
+    split; [reflexivity|]. split; [reflexivity|]. split; [lia|].
+    split; [intros Hn; congruence | reflexivity]. }
+  destruct (validate_batch P look (firstn n (x :: r)) &&
+            match last with Some p => pair_ok P look p x | None => true end) eqn:Eb.
+  - apply IH in Hv. cbn [tick c_bw c_fw c_poll] in Hv.
+    destruct Hv as (H1 & H2 & H3 & H4 & H5).
+    split; [exact H1|]. split; [exact H2|]. split; [lia|].
+    split; [intros Hn; rewrite (H4 Hn); reflexivity | exact H5].
+  - inversion Hv; subst v c'. cbn [tick c_bw c_fw c_poll].
+    split; [reflexivity|]. split; [reflexivity|]. split; [lia|].
+    split; [reflexivity | intros Hp; discriminate].
+Qed.
+
+Lemma vff_app P : forall a r h,
+  validate_filters_from P (a ++ r) h =
+  validate_filters_from P a h && validate_filters_from P r (h + Z.of_nat (length a)).
+Proof.
+  induction a as [|x a IH]; intros r h.
+  - cbn [app validate_filters_from length andb]. f_equal. lia.
+  - cbn [app validate_filters_from length]. rewrite IH, andb_assoc. do 2 f_equal. lia.
+Qed.
+
+Lemma validate_filters_c_spec P n fl : forall fuel l h c v c',
+  (length l < fuel)%nat -> (1 <= n)%nat ->
+  validate_filters_c fuel P n l h fl c = (v, c') ->
+  c_bw c' = c_bw c /\ c_fw c' = c_fw c /\ c_poll c <= c_poll c' /\
+  (is_canc fl (c_poll c') = false -> v = validate_filters_from P l h) /\
+  (validate_filters_from P l h = true -> v = true).
+Proof.
+  induction fuel as [|k IH]; intros l h c v c' Hfuel Hn Hv; [lia|].
+  cbn [validate_filters_c] in Hv.
+  destruct l as [|x r].
+  { inversion Hv; subst. cbn [validate_filters_from].
+    split; [reflexivity|]. split; [reflexivity|]. split; [lia|]. split; reflexivity. }
+  destruct (is_canc fl (c_poll (tick c))) eqn:Ec.
+  { inversion Hv; subst v c'. cbn [tick c_bw c_fw c_poll] in *.
+    split; [reflexivity|]. split; [reflexivity|]. split; [lia|].
+    split; [intros Hc; congruence | reflexivity]. }
+  assert (Hsplit : validate_filters_from P (x :: r) h =
+                   validate_filters_from P (firstn n (x :: r)) h &&
+                   validate_filters_from P (skipn n (x :: r)) (h + Z.of_nat (length (firstn n (x :: r))))).
+  { rewrite <- vff_app, firstn_skipn. reflexivity. }
+  destruct (validate_filters_from P (firstn n (x :: r)) h) eqn:Eb.
+  - apply IH in Hv; [| rewrite skipn_length; cbn [length] in *; lia | assumption].
+    cbn [tick c_bw c_fw c_poll] in Hv. destruct Hv as (H1 & H2 & H3 & H4 & H5).
+    rewrite Hsplit. cbn [andb].
+    split; [exact H1|]. split; [exact H2|]. split; [lia|]. split; assumption.
+  - inversion Hv; subst v c'. cbn [tick c_bw c_fw c_poll]. rewrite Hsplit. cbn [andb].
+    split; [reflexivity|]. split; [reflexivity|]. split; [lia|].
+    split; [reflexivity | intros Hp; discriminate].
+Qed.
+
+(* both validators *)
+Lemma validation_spec P s b f bs fl v c :
+  validation P s b f bs fl = (v, c) ->
+  c_bw c = 0 /\ c_fw c = 0 /\ 0 <= c_poll c /\
+  (is_canc fl (c_poll c) = false ->
+     v = validate_blocks P s b (eff_batch bs) && validate_filters P f) /\
+  (validate_blocks P s b (eff_batch bs) && validate_filters P f = true -> v = true).
+Proof.
+  unfold validation.
+  destruct (validate_blocks_c P s b (eff_batch bs) fl (mkC 0 0 0)) as [vb c1] eqn:Eb.
+  unfold validate_blocks_c in Eb. apply validate_chunks_c_spec in Eb.
+  cbn [c_bw c_fw c_poll] in Eb. destruct Eb as (B1 & B2 & B3 & B4 & B5).
+  fold (validate_blocks P s b (eff_batch bs)) in B4, B5.
+  destruct vb.
+  - intros Hf. unfold validate_filters_cc in Hf.
+    apply validate_filters_c_spec in Hf; [| lia | lia].
+    destruct Hf as (F1 & F2 & F3 & F4 & F5). fold (validate_filters P f) in F4, F5.
+    split; [lia|]. split; [lia|]. split; [lia|]. split.
+    + intros Hn. rewrite (F4 Hn), <- (B4 (is_canc_mono_false _ _ _ Hn F3)). reflexivity.
+    + intros Hp. apply andb_true_iff in Hp. now apply F5.
+  - intros Hf. inversion Hf; subst v c.
+    split; [lia|]. split; [lia|]. split; [lia|]. split.
+    + intros Hn. now rewrite <- (B4 Hn).
+    + intros Hp. apply andb_true_iff in Hp. destruct Hp as [Hp _]. now apply B5.
+Qed.
+
+(* a context that is never cancelled never cuts the validation short *)
+Lemma never_cancelled P s b f bs fl : fl_cancel fl = 0 -> cancelled_in_validation P s b f bs fl = false.
+Proof. intros Hn. unfold cancelled_in_validation. now apply is_canc_never. Qed.
+
+Definition prechecks (P : params) (s : stores) (b : bsource) (f : fsource) : bool :=
+  open_ok (bs_meta b) (length (bs_hdrs b)) && open_ok (fs_meta f) (length (fs_hdrs f)) &&
+  compat P b f && continuity s b f.
+
+Lemma checks_prechecks P s b f bs :
+  checks P s b f bs = prechecks P s b f && (validate_blocks P s b (eff_batch bs) && validate_filters P f).
+Proof. unfold checks, prechecks. now rewrite !andb_assoc. Qed.
+
+(* Import writes only through [process_regions], entered either after every
+   check has passed (validation run to its end), or after a validation that a
+   cancelled context cut short -- and then the context is still cancelled. *)
+Lemma import_cases P s b f bs fl r s' :
+  import P s b f bs fl = (r, s') ->
+  (r = Failure /\ s' = s) \/
+  exists c0, process_regions s b f bs fl c0 = (r, s') /\
+    ((checks P s b f bs = true /\ cancelled_in_validation P s b f bs fl = false) \/
+     (prechecks P s b f = true /\ is_canc fl (c_poll c0) = true /\
+      cancelled_in_validation P s b f bs fl = true)).
+Proof.
+  unfold import. rewrite checks_prechecks. unfold prechecks, cancelled_in_validation.
   destruct (open_ok (bs_meta b) (length (bs_hdrs b)) && open_ok (fs_meta f) (length (fs_hdrs f)));
     cbn [negb andb]; [|intros Hi; inversion Hi; now left].
   destruct (compat P b f); cbn [negb andb]; [|intros Hi; inversion Hi; now left].
   destruct (continuity s b f); cbn [negb andb]; [|intros Hi; inversion Hi; now left].
-  destruct (validate_blocks P s b (eff_batch bs)); cbn [negb andb]; [|intros Hi; inversion Hi; now left].
-  destruct (validate_filters P f); cbn [negb andb]; [|intros Hi; inversion Hi; now left].
-  intros _. now right.
+  destruct (validation P s b f bs fl) as [v c0] eqn:Ev. cbn [snd].
+  destruct (validation_spec _ _ _ _ _ _ _ _ Ev) as (_ & _ & _ & V4 & _).
+  destruct v; [|intros Hi; inversion Hi; now left].
+  intros Hi. right. exists c0. split; [exact Hi|].
+  destruct (is_canc fl (c_poll c0)) eqn:Ec.
+  - right. auto.
+  - left. split; [symmetry; now apply V4 | reflexivity].
 Qed.
 
 Lemma checks_facts P s b f bs : checks P s b f bs = true ->
@@ -1002,36 +1119,60 @@ Proof.
   - lia.
 Qed.
 
-(* once every check passed, the outcome is decided by the regions alone *)
+Lemma prechecks_facts P s b f : prechecks P s b f = true ->
+  (0 < length (bs_hdrs b))%nat /\ length (fs_hdrs f) = length (bs_hdrs b) /\
+  hz (m_start (fs_meta f)) = hz (b_start b) /\ continuity s b f = true.
+Proof.
+  unfold prechecks, open_ok, compat, b_start. intros Hc.
+  repeat (apply andb_true_iff in Hc; destruct Hc as [Hc ?]).
+  repeat split; try assumption.
+  - destruct (length (bs_hdrs b)); cbn in *; lia.
+  - apply Nat.eqb_eq. lia.
+  - lia.
+Qed.
+
+(* once every check passed, the outcome is decided by the regions alone,
+   whatever the context does during validation *)
 Lemma import_after_checks P s b f bs fl :
   checks P s b f bs = true ->
-  import P s b f bs fl =
-  match regions s b with
-  | None => (Failure, s)
-  | Some (dv, nw) =>
-    let c0 := mkC 0 0 in
-    let '(r1, s1, c1) :=
-      if r_exists dv then
-        if verify_at s b f (r_end dv) (r_v dv)
-        then append_region fl c0 s b f (r_start dv) (r_end dv) bs (r_a dv)
-        else (Failure, s, c0)
-      else (Success, s, c0) in
-    match r1 with
-    | Failure => (Failure, s1)
-    | Success =>
-      if r_exists nw then
-        let '(r2, s2, _) := append_region fl c1 s1 b f (r_start nw) (r_end nw) bs (r_a nw) in
-        (r2, s2)
-      else (Success, s1)
-    end
-  end.
+  import P s b f bs fl = process_regions s b f bs fl (snd (validation P s b f bs fl)).
 Proof.
-  unfold checks, import. intros Hc.
-  apply andb_true_iff in Hc; destruct Hc as [Hc H5].
-  apply andb_true_iff in Hc; destruct Hc as [Hc H4].
+  rewrite checks_prechecks. unfold prechecks, import. intros Hc.
+  apply andb_true_iff in Hc; destruct Hc as [Hc Hv].
   apply andb_true_iff in Hc; destruct Hc as [Hc H3].
   apply andb_true_iff in Hc; destruct Hc as [Hc H2].
-  rewrite Hc, H2, H3, H4, H5. reflexivity.
+  rewrite Hc, H2, H3. cbn [negb].
+  destruct (validation P s b f bs fl) as [v c0] eqn:Ev. cbn [snd].
+  destruct (validation_spec _ _ _ _ _ _ _ _ Ev) as (_ & _ & _ & _ & V5).
+  now rewrite (V5 Hv).
+Qed.
+
+(* a cancelled context stays cancelled: nothing is written *)
+Lemma append_region_cancelled fl c s b f sh eh bs m :
+  is_canc fl (c_poll c) = true ->
+  append_region fl c s b f sh eh bs m = (Failure, s, tick c).
+Proof.
+  intros Hc. unfold append_region. cbn [append_loop].
+  rewrite (is_canc_mono fl (c_poll c) (c_poll (tick c)) Hc) by (cbn [tick c_poll]; lia).
+  reflexivity.
+Qed.
+
+Lemma process_regions_cancelled s b f bs fl c0 r s' :
+  is_canc fl (c_poll c0) = true -> process_regions s b f bs fl c0 = (r, s') ->
+  s' = s /\
+  (r = Success -> exists dv nw, regions s b = Some (dv, nw) /\ r_exists dv = false /\ r_exists nw = false).
+Proof.
+  intros Hc. unfold process_regions.
+  destruct (regions s b) as [[dv nw]|]; [|intros Hp; inversion Hp; split; [reflexivity | discriminate]].
+  destruct (r_exists dv) eqn:Ed.
+  - destruct (verify_at s b f (r_end dv) (r_v dv)).
+    + rewrite append_region_cancelled by assumption.
+      intros Hp; inversion Hp; split; [reflexivity | discriminate].
+    + intros Hp; inversion Hp; split; [reflexivity | discriminate].
+  - destruct (r_exists nw) eqn:En.
+    + rewrite append_region_cancelled by assumption.
+      intros Hp; inversion Hp; split; [reflexivity | discriminate].
+    + intros Hp; inversion Hp; split; [reflexivity|]. intros _. exists dv, nw. auto.
 Qed.
 
 (* ------------------------------------------------------------------ *)
@@ -1224,17 +1365,17 @@ Qed.
 (* ------------------------------------------------------------------ *)
 (* Equal heights: the resulting block chain is valid, nothing unvalidated *)
 
-Lemma import_chain_valid_equal P s b f bs fl r s' :
+Lemma import_chain_valid_equal P s b f bs fl c0 r s' :
   stores_wf s -> length (bfile s) = length (ffile s) -> 0 <= hz (b_start b) ->
   NoDup (map hid (extend (bfile s) (hz (b_start b)) (bs_hdrs b))) ->
   hash_inj (bfile s ++ bs_hdrs b) -> retarget_ok P ->
-  import P s b f bs fl = (r, s') ->
+  checks P s b f bs = true -> process_regions s b f bs fl c0 = (r, s') ->
   valid_chain P (bfile s) -> valid_chain P (bfile s').
 Proof.
-  intros Hwf Heq Hst Hnd Hinj HR Him Hold.
-  destruct (import_checks _ _ _ _ _ _ _ _ Him) as [[_ ->]|Hck]; [exact Hold|].
+  intros Hwf Heq Hst Hnd Hinj HR Hck Him Hold.
   pose proof (extend_valid P s b f bs Hwf Heq Hst Hinj HR Hck Hold) as HL.
-  destruct (import_equal_heights _ _ _ _ _ _ _ _ Hwf Heq Hst Hnd Him) as (_ & _ & Hcp & _).
+  destruct (checks_facts _ _ _ _ _ Hck) as (Hne & Hlen & Hfst & Hcont & _).
+  destruct (import_equal_heights _ _ _ _ _ _ _ _ Hwf Heq Hst Hnd Hne Hlen Hfst Hcont Him) as (_ & _ & Hcp & _).
   destruct Hcp as ([rest Hrest] & _). rewrite <- Hrest in HL.
   now apply valid_chain_prefix in HL.
 Qed.
@@ -1441,9 +1582,11 @@ Section LoopF.
     induction fuel as [|k IH]; intros c s h r s' c' HI Hfuel Hl.
     { destruct HI as (_ & _ & _ & Hh & _). lia. }
     cbn [append_loop] in Hl.
-    destruct (process_batch fl c s b f (Ht h) (ix_of_height (Ht h) (b_start b)) (Ix (de - st)) B AFilter)
+    destruct (is_canc fl (c_poll (tick c))).
+    { inversion Hl; subst r s' c'. split; [now apply (InvF_PostF s h) | discriminate]. }
+    destruct (process_batch fl (tick c) s b f (Ht h) (ix_of_height (Ht h) (b_start b)) (Ix (de - st)) B AFilter)
       as [[res s1] c1] eqn:Ep.
-    apply (stepF_ok c s h res s1 c1 HI) in Ep.
+    apply (stepF_ok (tick c) s h res s1 c1 HI) in Ep.
     destruct Ep as [(Hgt & -> & ->)|[(Hle & -> & ->)|(Hle & h' & -> & Hlt & HI')]].
     - inversion Hl; subst r s' c'. split; [now apply (InvF_PostF s h)|]. intros _.
       assert (h = de + 1) by (destruct HI as (_ & _ & _ & Hh & _); lia). now subst h.
@@ -1498,7 +1641,7 @@ Proof.
     apply andb_true_iff in Hck; destruct Hck as [Hck H2].
     rewrite Hck, H2, Hcont', H5, Hvb', H4. reflexivity. }
   rewrite (import_after_checks _ _ _ _ _ _ Hck').
-  unfold regions. rewrite Hbt', Hft'.
+  unfold process_regions, regions. rewrite Hbt', Hft'.
   clear Hv0 Hv1 Hcont' Hck' Hck Hcont Hvb Hvb' Hvf Hbt' Hft'.
   destruct (n' - 1 >? m' - 1); [|destruct (n' - 1 <? m' - 1)];
     cbn [r_exists r_start r_end r_v r_a];
@@ -1550,17 +1693,16 @@ Proof.
       rewrite Hf, nthZ_app_skip by lia. rewrite <- Hx. f_equal. lia.
 Qed.
 
-Lemma import_idem_equal P s b f bs fl s' :
+Lemma import_idem_equal P s b f bs fl c0 s' :
   stores_wf s -> length (bfile s) = length (ffile s) -> 0 <= hz (b_start b) ->
   NoDup (map hid (extend (bfile s) (hz (b_start b)) (bs_hdrs b))) ->
-  import P s b f bs fl = (Success, s') ->
+  checks P s b f bs = true -> process_regions s b f bs fl c0 = (Success, s') ->
   forall fl', import P s' b f bs fl' = (Success, s').
 Proof.
-  intros Hwf Heq Hst Hnd Him fl'.
-  destruct (import_equal_heights _ _ _ _ _ _ _ _ Hwf Heq Hst Hnd Him) as (Hwf' & _ & _ & HS).
-  destruct (HS eq_refl) as (HbL & HfL & Hen & Heq'). clear HS.
-  destruct (import_checks _ _ _ _ _ _ _ _ Him) as [[Hr _]|Hck]; [discriminate|].
+  intros Hwf Heq Hst Hnd Hck Him fl'.
   destruct (checks_facts _ _ _ _ _ Hck) as (Hne & Hlen & Hfst & Hcont & Hvb & Hvf).
+  destruct (import_equal_heights _ _ _ _ _ _ _ _ Hwf Heq Hst Hnd Hne Hlen Hfst Hcont Him) as (Hwf' & _ & _ & HS).
+  destruct (HS eq_refl) as (HbL & HfL & Hen & Heq'). clear HS.
   destruct (continuity_equal_facts s b f Hwf Heq Hcont) as (Hstn & Hv0 & Hv1). cbn zeta in Hstn, Hv0, Hv1.
   set (n := Z.of_nat (length (bfile s))) in *. set (st := hz (b_start b)) in *.
   set (kN := Z.to_nat (n - st)).
@@ -1585,7 +1727,7 @@ Qed.
 (* ------------------------------------------------------------------ *)
 (* What Import guarantees, for any outcome *)
 
-Definition import_post (P : params) (b : bsource) (f : fsource) (bs : Z) (fl : faults)
+Definition regions_post (P : params) (b : bsource) (f : fsource) (bs : Z) (fl : faults)
            (s : stores) (r : result) (s' : stores) : Prop :=
   stores_wf s' /\
   (exists rest, bfile s' ++ rest = extend (bfile s) (hz (b_start b)) (bs_hdrs b)) /\
@@ -1616,9 +1758,9 @@ Lemma post_unchanged P b f bs fl s r :
   stores_wf s ->
   (r = Success -> hz (b_end b) < Z.of_nat (length (ffile s)) /\ length (fs_hdrs f) = length (bs_hdrs b) /\
                   forall fl', import P s b f bs fl' = (Success, s)) ->
-  import_post P b f bs fl s r s.
+  regions_post P b f bs fl s r s.
 Proof.
-  intros Hwf HS. unfold import_post.
+  intros Hwf HS. unfold regions_post.
   split; [assumption|]. split; [apply extend_prefix|]. split; [apply extend_prefix|].
   split; [lia|]. split; [lia|]. split; [intros _; split; [lia | now left]|]. split; [tauto|].
   split; [now rewrite skipn_all|].
@@ -1735,21 +1877,18 @@ Proof.
     + intros Hl. fold m in Hl. lia.
 Qed.
 
-Lemma import_block_ahead P s b f bs fl r s' :
+Lemma import_block_ahead P s b f bs fl c0 r s' :
   stores_wf s -> (length (ffile s) < length (bfile s))%nat -> 0 <= hz (b_start b) ->
   NoDup (map hid (extend (bfile s) (hz (b_start b)) (bs_hdrs b))) ->
   hash_inj (bfile s ++ bs_hdrs b) -> retarget_ok P ->
-  import P s b f bs fl = (r, s') ->
-  import_post P b f bs fl s r s'.
+  checks P s b f bs = true -> process_regions s b f bs fl c0 = (r, s') ->
+  regions_post P b f bs fl s r s'.
 Proof.
-  intros Hwf Hlt Hst Hnd Hinj HR Him.
-  destruct (import_checks _ _ _ _ _ _ _ _ Him) as [[Hr Hs]|Hck].
-  { subst r s'. apply post_unchanged; [assumption | discriminate]. }
+  intros Hwf Hlt Hst Hnd Hinj HR Hck Him.
   destruct (checks_facts _ _ _ _ _ Hck) as (Hne & Hlen & Hfst & Hcont & Hvb & Hvf).
   destruct (continuity_facts s b f Hwf Hcont) as (Hstm & Hv0 & Hv1). cbn zeta in Hstm, Hv0, Hv1.
   pose proof (wf_tips s Hwf) as [Hbt [y Hft]].
-  rewrite (import_after_checks _ _ _ _ _ _ Hck) in Him.
-  unfold regions in Him. rewrite Hbt, Hft in Him.
+  unfold process_regions, regions in Him. rewrite Hbt, Hft in Him.
   set (n := Z.of_nat (length (bfile s))) in *. set (m := Z.of_nat (length (ffile s))) in *.
   set (st := hz (b_start b)) in *. set (len := Z.of_nat (length (bs_hdrs b))) in *.
   assert (Hend : hz (b_end b) = st + len - 1) by reflexivity.
@@ -1785,13 +1924,13 @@ Proof.
   cbn [verify_at] in Ev.
   (* phase 1: the filter store catches up *)
   unfold append_region at 1 in Him. unfold ix_of_height in Him. cbn [hz] in Him. fold st in Him.
-  destruct (append_loop (S (length (bs_hdrs b))) fl (mkC 0 0) s b f (Ht m) (Ix (de - st)) (eff_batch bs) AFilter)
+  destruct (append_loop (S (length (bs_hdrs b))) fl c0 s b f (Ht m) (Ix (de - st)) (eff_batch bs) AFilter)
     as [[r1 s1] c1] eqn:E1.
   assert (HI0 : InvF f (bfile s) (ffile s) st m de s m).
   { unfold InvF. split; [assumption|]. repeat split; try reflexivity; lia. }
   destruct (loopF_ok b f fl (eff_batch bs) (bfile s) (ffile s) st len m de
               eq_refl eq_refl eq_refl HB Hlen Hfst Hstm ltac:(lia) ltac:(fold n; lia)
-              (S (length (bs_hdrs b))) (mkC 0 0) s m r1 s1 c1 HI0 ltac:(fold len; lia) E1) as [HP1 HS1].
+              (S (length (bs_hdrs b))) c0 s m r1 s1 c1 HI0 ltac:(fold len; lia) E1) as [HP1 HS1].
   destruct HP1 as (Q1 & Q2 & [rf Q3] & Q4 & Q5).
   assert (Hext_f : extend (ffile s) st (fs_hdrs f) = ffile s ++ skipn (Z.to_nat (m - st)) (fs_hdrs f)).
   { apply extend_app. fold m. rewrite Hlen. fold len. lia. }
@@ -1817,7 +1956,7 @@ Proof.
   clear Hv0 Hv1 Hblk Hflt Hsame Hcont Hvb Hck Hvf HI0 Hbt Hft E1.
   destruct r1.
   2:{ (* phase 1 failed: block store untouched, filter store a prefix *)
-      inversion Him; subst r s'. unfold import_post. fold st.
+      inversion Him; subst r s'. unfold regions_post. fold st.
       split; [assumption|]. split; [rewrite Q2; apply extend_prefix|].
       split; [exists rf; now rewrite Hext_f|].
       split; [rewrite Q2; lia|]. split; [assumption|].
@@ -1846,7 +1985,7 @@ Proof.
     destruct HP2 as (R1 & [rb R2] & [rf2 R3] & R4 & R5 & R6 & R7).
     replace (de + 1) with n in I5 by lia.
     assert (Hvat : verify_block_at s b (Ht (n - 1)) = true) by (rewrite <- Hden; exact Ev).
-    unfold import_post. fold st.
+    unfold regions_post. fold st.
     split; [assumption|]. split; [exists rb; now rewrite Hext_b|].
     split; [exists rf2; rewrite Hext_f, R3; exact I5|].
     split; [assumption|]. split; [lia|].
@@ -1871,7 +2010,7 @@ Proof.
     assert (Hb' : bfile s1 = extend (bfile s) st (bs_hdrs b)).
     { rewrite Q2. symmetry. apply extend_below. fold n len. lia. }
     assert (Hf' : ffile s1 = extend (ffile s) st (fs_hdrs f)) by (rewrite Hext_f; exact I5).
-    unfold import_post. fold st.
+    unfold regions_post. fold st.
     split; [assumption|]. split; [exists []; now rewrite app_nil_r|].
     split; [exists []; now rewrite app_nil_r|].
     split; [rewrite Q2; lia|]. split; [assumption|].
@@ -1883,7 +2022,88 @@ Proof.
 Qed.
 
 (* ------------------------------------------------------------------ *)
-(* The full statement: every height difference the store invariant allows *)
+(* Nothing left to write: the file ends at or below the filter tip *)
+
+Lemma regions_none_left s b :
+  stores_wf s -> hz (b_end b) < Z.of_nat (length (ffile s)) ->
+  exists dv nw, regions s b = Some (dv, nw) /\ r_exists dv = false /\ r_exists nw = false.
+Proof.
+  intros Hwf Hen. pose proof (wf_tips s Hwf) as [Hbt [y Hft]]. pose proof (wf_f_le_b s Hwf) as Hle.
+  unfold regions. rewrite Hbt, Hft.
+  assert (Hmn : Z.of_nat (length (ffile s)) <= Z.of_nat (length (bfile s))) by lia.
+  unfold b_end, b_count in *. cbn [hz] in *.
+  set (n := Z.of_nat (length (bfile s))) in *. set (m := Z.of_nat (length (ffile s))) in *.
+  destruct (n - 1 >? m - 1); [|destruct (n - 1 <? m - 1)]; eexists; eexists;
+    (split; [reflexivity|]); cbn [r_exists]; split; lia.
+Qed.
+
+Lemma regions_none_end s b dv nw :
+  stores_wf s -> regions s b = Some (dv, nw) -> r_exists dv = false -> r_exists nw = false ->
+  hz (b_end b) < Z.of_nat (length (ffile s)).
+Proof.
+  intros Hwf Hr Hd Hn. pose proof (wf_tips s Hwf) as [Hbt [y Hft]]. pose proof (wf_f_le_b s Hwf) as Hle.
+  unfold regions in Hr. rewrite Hbt, Hft in Hr.
+  assert (Hmn : Z.of_nat (length (ffile s)) <= Z.of_nat (length (bfile s))) by lia.
+  unfold b_end, b_count in *. cbn [hz] in *.
+  set (n := Z.of_nat (length (bfile s))) in *. set (m := Z.of_nat (length (ffile s))) in *.
+  destruct (n - 1 >? m - 1) eqn:E1; [|destruct (n - 1 <? m - 1) eqn:E2];
+    inversion Hr; subst dv nw; cbn [r_exists] in Hd, Hn; lia.
+Qed.
+
+Lemma process_regions_none s b f bs fl c0 dv nw :
+  regions s b = Some (dv, nw) -> r_exists dv = false -> r_exists nw = false ->
+  process_regions s b f bs fl c0 = (Success, s).
+Proof. intros Hr Hd Hn. unfold process_regions. now rewrite Hr, Hd, Hn. Qed.
+
+(* an import of a file that ends at or below the filter tip writes nothing,
+   whatever its outcome, faults and context *)
+Lemma import_nothing_left P s b f bs fl :
+  stores_wf s -> hz (b_end b) < Z.of_nat (length (ffile s)) ->
+  snd (import P s b f bs fl) = s.
+Proof.
+  intros Hwf Hen. destruct (import P s b f bs fl) as [r s'] eqn:Him. cbn [snd].
+  destruct (import_cases _ _ _ _ _ _ _ _ Him) as [[_ ->]|(c0 & Hpr & _)]; [reflexivity|].
+  destruct (regions_none_left s b Hwf Hen) as (dv & nw & Hr & Hd & Hn).
+  rewrite (process_regions_none s b f bs fl c0 dv nw Hr Hd Hn) in Hpr. now inversion Hpr.
+Qed.
+
+(* ------------------------------------------------------------------ *)
+(* The full statement: every height difference the store invariant allows,
+   every cancellation point *)
+
+Definition import_post (P : params) (b : bsource) (f : fsource) (bs : Z) (fl : faults)
+           (s : stores) (r : result) (s' : stores) : Prop :=
+  stores_wf s' /\
+  (exists rest, bfile s' ++ rest = extend (bfile s) (hz (b_start b)) (bs_hdrs b)) /\
+  (exists rest, ffile s' ++ rest = extend (ffile s) (hz (b_start b)) (fs_hdrs f)) /\
+  (length (bfile s) <= length (bfile s'))%nat /\ (length (ffile s) <= length (ffile s'))%nat /\
+  (fl_rb fl = false ->
+     Z.of_nat (length (bfile s')) - Z.of_nat (length (ffile s')) <=
+     Z.of_nat (length (bfile s)) - Z.of_nat (length (ffile s)) /\
+     (length (bfile s') = length (bfile s) \/ length (bfile s') = length (ffile s'))) /\
+  (valid_chain P (bfile s) -> valid_chain P (bfile s')) /\
+  validate_filters_from P (skipn (length (ffile s)) (ffile s')) (Z.of_nat (length (ffile s))) = true /\
+  (cancelled_in_validation P s b f bs fl = true -> s' = s) /\
+  (r = Success ->
+     bfile s' = extend (bfile s) (hz (b_start b)) (bs_hdrs b) /\
+     ffile s' = extend (ffile s) (hz (b_start b)) (fs_hdrs f) /\
+     hz (b_end b) < Z.of_nat (length (ffile s')) /\
+     (forall fl', snd (import P s' b f bs fl') = s') /\
+     (cancelled_in_validation P s b f bs fl = false -> valid_chain P (bfile s) ->
+        forall fl', import P s' b f bs fl' = (Success, s'))).
+
+Lemma regions_post_import_post P b f bs fl s r s' :
+  cancelled_in_validation P s b f bs fl = false ->
+  regions_post P b f bs fl s r s' -> import_post P b f bs fl s r s'.
+Proof.
+  intros Hcv (R1 & R2 & R3 & R4 & R5 & R6 & R7 & R8 & R9). unfold import_post.
+  split; [assumption|]. split; [assumption|]. split; [assumption|]. split; [assumption|].
+  split; [assumption|]. split; [assumption|]. split; [assumption|]. split; [assumption|].
+  split; [intros Hc; congruence|].
+  intros Hr. destruct (R9 Hr) as (S1 & S2 & S3 & S4).
+  split; [assumption|]. split; [assumption|]. split; [assumption|].
+  split; [intros fl'; now apply import_nothing_left | intros _; exact S4].
+Qed.
 
 Lemma import_full P s b f bs fl r s' :
   stores_wf s -> 0 <= hz (b_start b) ->
@@ -1893,21 +2113,175 @@ Lemma import_full P s b f bs fl r s' :
   import_post P b f bs fl s r s'.
 Proof.
   intros Hwf Hst Hnd Hinj HR Him.
-  destruct (le_lt_eq_dec _ _ (wf_f_le_b s Hwf)) as [Hlt|Heq].
-  - now apply (import_block_ahead P s b f bs fl r s').
-  - symmetry in Heq.
-    destruct (import_equal_heights _ _ _ _ _ _ _ _ Hwf Heq Hst Hnd Him) as (Hwf' & Hle & Hcp & HS).
-    destruct Hcp as (Hb & Hf & Hlb & Hlf & Hrb).
-    unfold import_post.
-    split; [assumption|]. split; [assumption|]. split; [assumption|]. split; [assumption|]. split; [assumption|].
-    split; [intros Hrbf; specialize (Hrb Hrbf); split; [lia | now right]|].
-    split; [now apply (import_chain_valid_equal P s b f bs fl r s')|].
-    split.
-    { destruct (import_checks _ _ _ _ _ _ _ _ Him) as [[_ Hs]|Hck]; [subst s'; now rewrite skipn_all|].
-      destruct (checks_facts _ _ _ _ _ Hck) as (_ & _ & Hfst & _ & _ & Hvf).
-      unfold validate_filters in Hvf. rewrite Hfst in Hvf. destruct Hf as [rest Hrest].
-      now apply (filters_validated P (ffile s) (ffile s') (fs_hdrs f) (hz (b_start b)) rest). }
-    intros Hr. destruct (HS Hr) as (H1 & H2 & H3 & H4).
-    split; [assumption|]. split; [assumption|]. split; [lia|].
-    intros _. subst r. now apply (import_idem_equal P s b f bs fl s').
+  (* the stores are left as they were *)
+  assert (Hunch : forall r0, (r0 = Success -> hz (b_end b) < Z.of_nat (length (ffile s)) /\
+                                              length (fs_hdrs f) = length (bs_hdrs b) /\
+                                              cancelled_in_validation P s b f bs fl = true) ->
+                  import_post P b f bs fl s r0 s).
+  { intros r0 HS. unfold import_post.
+    split; [assumption|]. split; [apply extend_prefix|]. split; [apply extend_prefix|].
+    split; [lia|]. split; [lia|]. split; [intros _; split; [lia | now left]|]. split; [tauto|].
+    split; [now rewrite skipn_all|]. split; [reflexivity|].
+    intros Hr. destruct (HS Hr) as (Hen & Hlen & Hcv).
+    pose proof (wf_f_le_b s Hwf) as Hle. assert (Hen' := Hen). unfold b_end, b_count in Hen'. cbn [hz] in Hen'.
+    split; [symmetry; apply extend_below; lia|].
+    split; [symmetry; apply extend_below; lia|].
+    split; [exact Hen|].
+    split; [intros fl'; now apply import_nothing_left | intros Hc; congruence]. }
+  destruct (import_cases _ _ _ _ _ _ _ _ Him) as [[-> ->]|(c0 & Hpr & [[Hck Hcv]|(Hpre & Hcan & Hcv)])].
+  - apply Hunch. discriminate.
+  - (* validation ran to its end and accepted the file *)
+    apply regions_post_import_post; [exact Hcv|].
+    destruct (le_lt_eq_dec _ _ (wf_f_le_b s Hwf)) as [Hlt|Heq].
+    + now apply (import_block_ahead P s b f bs fl c0 r s').
+    + symmetry in Heq.
+      destruct (checks_facts _ _ _ _ _ Hck) as (Hne & Hlen & Hfst & Hcont & _ & Hvf).
+      destruct (import_equal_heights _ _ _ _ _ _ _ _ Hwf Heq Hst Hnd Hne Hlen Hfst Hcont Hpr) as (Hwf' & Hle & Hcp & HS).
+      destruct Hcp as (Hb & Hf & Hlb & Hlf & Hrb).
+      unfold regions_post.
+      split; [assumption|]. split; [assumption|]. split; [assumption|]. split; [assumption|]. split; [assumption|].
+      split; [intros Hrbf; specialize (Hrb Hrbf); split; [lia | now right]|].
+      split; [now apply (import_chain_valid_equal P s b f bs fl c0 r s')|].
+      split.
+      { unfold validate_filters in Hvf. rewrite Hfst in Hvf. destruct Hf as [rest Hrest].
+        now apply (filters_validated P (ffile s) (ffile s') (fs_hdrs f) (hz (b_start b)) rest). }
+      intros Hr. destruct (HS Hr) as (H1 & H2 & H3 & H4).
+      split; [assumption|]. split; [assumption|]. split; [lia|].
+      intros _. subst r. now apply (import_idem_equal P s b f bs fl c0 s').
+  - (* validation cut short by the cancelled context: every later poll sees
+       the cancellation, nothing is written *)
+    destruct (process_regions_cancelled _ _ _ _ _ _ _ _ Hcan Hpr) as [-> HS].
+    apply Hunch. intros Hr. destruct (HS Hr) as (dv & nw & Hreg & Hd & Hn).
+    destruct (prechecks_facts _ _ _ _ Hpre) as (_ & Hlen & _).
+    split; [now apply (regions_none_end s b dv nw)|]. split; assumption.
+Qed.
+
+(* ------------------------------------------------------------------ *)
+(* A successful import whose validation was not cut short is the import under
+   a context that is never cancelled *)
+
+Definition live (fl : faults) : faults := mkF (fl_bw fl) (fl_fw fl) (fl_rb fl) 0.
+Definition ceq (c c' : ctr) : Prop := c_bw c = c_bw c' /\ c_fw c = c_fw c'.
+
+Lemma write_both_live fl c c' s bb fb :
+  ceq c c' ->
+  fst (fst (write_both fl c s bb fb)) = fst (fst (write_both (live fl) c' s bb fb)) /\
+  snd (fst (write_both fl c s bb fb)) = snd (fst (write_both (live fl) c' s bb fb)) /\
+  ceq (snd (write_both fl c s bb fb)) (snd (write_both (live fl) c' s bb fb)).
+Proof.
+  intros [Hb Hf]. unfold write_both, live, ceq. cbn [fl_bw fl_fw fl_rb]. rewrite Hb, Hf.
+  repeat match goal with
+         | |- context [if ?x then _ else _] => destruct x
+         | |- context [match b_rollback ?a ?n with _ => _ end] => destruct (b_rollback a n)
+         end; cbn [fst snd c_bw c_fw]; auto.
+Qed.
+
+Lemma process_batch_live fl c c' s b f h i e B m :
+  ceq c c' ->
+  fst (fst (process_batch fl c s b f h i e B m)) = fst (fst (process_batch (live fl) c' s b f h i e B m)) /\
+  snd (fst (process_batch fl c s b f h i e B m)) = snd (fst (process_batch (live fl) c' s b f h i e B m)) /\
+  ceq (snd (process_batch fl c s b f h i e B m)) (snd (process_batch (live fl) c' s b f h i e B m)).
+Proof.
+  intros Hc. unfold process_batch.
+  destruct (match m with AFilter => RB_ok [] | _ => read_batch (bs_get b) (b_count b) i e B end);
+    [cbn [fst snd]; auto | cbn [fst snd]; auto |].
+  destruct (match m with ABlock => RB_ok [] | _ => read_batch (fs_get f) (b_count b) i e B end);
+    [cbn [fst snd]; auto | cbn [fst snd]; auto |].
+  match goal with |- context [match ?x with Some _ => _ | None => _ end] => destruct x as [fb2|] end;
+    [|cbn [fst snd]; auto].
+  destruct (write_both_live fl c c' s l fb2 Hc) as (W1 & W2 & W3).
+  destruct (write_both fl c s l fb2) as [[r1 s1] c1].
+  destruct (write_both (live fl) c' s l fb2) as [[r2 s2] c2].
+  cbn [fst snd] in W1, W2, W3. subst r2 s2.
+  destruct r1; cbn [fst snd]; auto.
+Qed.
+
+Lemma append_loop_live fl b f e B m : forall fuel c c' s h s1 c1,
+  ceq c c' ->
+  append_loop fuel fl c s b f h e B m = (Success, s1, c1) ->
+  exists c1', append_loop fuel (live fl) c' s b f h e B m = (Success, s1, c1') /\ ceq c1 c1'.
+Proof.
+  induction fuel as [|k IH]; intros c c' s h s1 c1 Hc Hl.
+  { cbn [append_loop] in *. inversion Hl; subst. exists c'. auto. }
+  cbn [append_loop] in *.
+  rewrite (is_canc_never (live fl)) by reflexivity.
+  destruct (is_canc fl (c_poll (tick c))); [discriminate|].
+  assert (Ht : ceq (tick c) (tick c')) by (unfold ceq, tick in *; cbn [c_bw c_fw]; exact Hc).
+  destruct (process_batch_live fl (tick c) (tick c') s b f h (ix_of_height h (b_start b)) e B m Ht)
+    as (P1 & P2 & P3).
+  destruct (process_batch fl (tick c) s b f h (ix_of_height h (b_start b)) e B m) as [[res sa] ca].
+  destruct (process_batch (live fl) (tick c') s b f h (ix_of_height h (b_start b)) e B m) as [[res' sb] cb].
+  cbn [fst snd] in P1, P2, P3. subst res' sb.
+  destruct res as [| |[e1]].
+  - inversion Hl; subst. exists cb. auto.
+  - discriminate.
+  - now apply (IH ca cb).
+Qed.
+
+Lemma process_regions_live s b f bs fl c0 c0' s' :
+  ceq c0 c0' -> process_regions s b f bs fl c0 = (Success, s') ->
+  process_regions s b f bs (live fl) c0' = (Success, s').
+Proof.
+  intros Hc. unfold process_regions.
+  destruct (regions s b) as [[dv nw]|]; [|intros Hp; exact Hp].
+  assert (H1 : forall r1 s1 c1,
+            (if r_exists dv then
+               if verify_at s b f (r_end dv) (r_v dv)
+               then append_region fl c0 s b f (r_start dv) (r_end dv) bs (r_a dv)
+               else (Failure, s, c0)
+             else (Success, s, c0)) = (r1, s1, c1) -> r1 = Success ->
+            exists c1',
+              (if r_exists dv then
+                 if verify_at s b f (r_end dv) (r_v dv)
+                 then append_region (live fl) c0' s b f (r_start dv) (r_end dv) bs (r_a dv)
+                 else (Failure, s, c0')
+               else (Success, s, c0')) = (Success, s1, c1') /\ ceq c1 c1').
+  { intros r1 s1 c1 He ->. destruct (r_exists dv).
+    - destruct (verify_at s b f (r_end dv) (r_v dv)); [|discriminate].
+      unfold append_region in *. now apply (append_loop_live fl b f _ _ _ _ c0 c0').
+    - inversion He; subst. exists c0'. auto. }
+  destruct (if r_exists dv then
+              if verify_at s b f (r_end dv) (r_v dv)
+              then append_region fl c0 s b f (r_start dv) (r_end dv) bs (r_a dv)
+              else (Failure, s, c0)
+            else (Success, s, c0)) as [[r1 s1] c1] eqn:E1.
+  destruct r1; [|discriminate].
+  destruct (H1 Success s1 c1 eq_refl eq_refl) as (c1' & E1' & Hc1). rewrite E1'.
+  destruct (r_exists nw); [|intros Hp; exact Hp].
+  destruct (append_region fl c1 s1 b f (r_start nw) (r_end nw) bs (r_a nw)) as [[r2 s2] c2] eqn:E2.
+  intros Hp. inversion Hp; subst r2 s2.
+  unfold append_region in *.
+  destruct (append_loop_live fl b f _ _ _ _ c1 c1' s1 _ s' c2 Hc1 E2) as (c2' & E2' & _).
+  now rewrite E2'.
+Qed.
+
+Lemma import_success_live P s b f bs fl s' :
+  import P s b f bs fl = (Success, s') -> cancelled_in_validation P s b f bs fl = false ->
+  import P s b f bs (live fl) = (Success, s').
+Proof.
+  unfold import, cancelled_in_validation.
+  destruct (negb (open_ok (bs_meta b) (length (bs_hdrs b)) && open_ok (fs_meta f) (length (fs_hdrs f))));
+    [discriminate|].
+  destruct (negb (compat P b f)); [discriminate|].
+  destruct (negb (continuity s b f)); [discriminate|].
+  destruct (validation P s b f bs fl) as [v c0] eqn:Ev.
+  destruct (validation P s b f bs (live fl)) as [v' c0'] eqn:Ev'. cbn [snd].
+  destruct (validation_spec _ _ _ _ _ _ _ _ Ev) as (A1 & A2 & _ & A4 & _).
+  destruct (validation_spec _ _ _ _ _ _ _ _ Ev') as (B1 & B2 & _ & B4 & _).
+  intros Hi Hn. destruct v; [|discriminate].
+  assert (Hv' : v' = true) by (rewrite (B4 (is_canc_never (live fl) _ eq_refl)), <- (A4 Hn); reflexivity).
+  subst v'.
+  apply (process_regions_live s b f bs fl c0 c0' s'); [|exact Hi].
+  unfold ceq. lia.
+Qed.
+
+(* a validation cut short by the cancelled context is never followed by a
+   write: no hypotheses on the stores or the file *)
+Lemma cut_short_writes_nothing P s b f bs fl :
+  cancelled_in_validation P s b f bs fl = true -> snd (import P s b f bs fl) = s.
+Proof.
+  intros Hcv. destruct (import P s b f bs fl) as [r s'] eqn:Him. cbn [snd].
+  destruct (import_cases _ _ _ _ _ _ _ _ Him) as [[_ ->]|(c0 & Hpr & [[_ Hn]|(_ & Hcan & _)])];
+    [reflexivity | congruence |].
+  now destruct (process_regions_cancelled _ _ _ _ _ _ _ _ Hcan Hpr) as [-> _].
 Qed.
